@@ -7,6 +7,24 @@ CHECKS = {
  "C01": dict(cat="exploration", technique="property-based testing (Hypothesis): typed-value generator + round-trip oracle",
    text="Hypothesis generates metamodel-valid typed values for every root type; parse->serialise is compared with the input under the documented null rule by an oracle derived from lsp.json, not from the package. Sampling of an infinite value space with measured class coverage; no proof of absence.",
    note="trusted: lspverif/refmodel.py reading of lsp.json; optional non-special `p: null` == absent; generator depth<=5, collections<=3", ref="3/C01"),
+ "C02": dict(cat="exploration", technique="property-based testing (Hypothesis): constructor path vs exact normal form + fix-point",
+   text="Hypothesis-generated typed values are turned into nested constructor calls; the serialised object must equal the normal form NF(tv) computed from lsp.json exactly (both directions), and parse+serialise of that output must be a fix-point. Sampling with measured coverage.",
+   note="trusted: refmodel/NF definition; closed-enum constructor arguments are members (the annotation demands it), open-enum ones member or raw value", ref="3/C02"),
+ "C03": dict(cat="exploration", technique="property-based testing (Hypothesis): metamodel-directed instance-of walk",
+   text="Every successfully structured generated value is walked under the metamodel type: classes, sequences, tuples, maps, base types, enum members, and at unions an alternative the input was valid for. Sampling with measured coverage.",
+   note="trusted: refmodel validity (non-strict) to decide which alternatives the input was valid for", ref="3/C03"),
+ "C04": dict(cat="exploration", technique="exhaustive enumeration of declarations against an independent mapping + Hypothesis constructor probes",
+   text="Finite domain enumerated completely in both directions (every declaration of lsp.json, every definition of lsprotocol.types); the oracle is an independent re-implementation of the documented type/validator mapping; wrongly typed constructor arguments are generated to confirm the validators dynamically.",
+   note="trusted: the mapping as documented in the plugin's comments and re-stated in props/c04.py; typing's Union equality", ref="3/C04"),
+ "C09": dict(cat="exploration", technique="exhaustive enumeration of methods x facets and of the registry",
+   text="All 95 methods x 7 facets and all registry names are enumerated and compared with relations derived from lsp.json; complete for the finite domain.",
+   note="trusted: message-class naming rule and UPPER_SNAKE derivation re-implemented in refmodel.py", ref="3/C09"),
+ "C15": dict(cat="exploration", technique="property-based testing (Hypothesis): metamorphic insertion of undeclared keys",
+   text="Metamorphic: generated valid values get fresh undeclared keys with arbitrary JSON payloads at generated protocol-object nodes; result object and re-serialisation must be unchanged.",
+   note="fresh = declared nowhere in the metamodel; payload/map positions excluded", ref="3/C15"),
+ "C20": dict(cat="exploration", technique="exhaustive boundary grid + Hypothesis random pairs against tuple comparison",
+   text="625 grid pairs x 6 operators exhaustively, random uinteger pairs, ranges/locations, foreign objects; oracle is Python tuple comparison and the stated repr format.",
+   note="coordinates are valid uintegers", ref="3/C20"),
 }
 
 def main():
